@@ -122,12 +122,13 @@ class CustomBase(BaseException):
 
 def make_value(vid):
     return [lambda: 0, lambda: 0.0, lambda: False, lambda: "", lambda: [], lambda: (), lambda: b"",
-            lambda: {}, lambda: "x", lambda: 1, lambda: object(), lambda: [1, 2], lambda: 3.5][vid]()
+            lambda: {}, lambda: "x", lambda: 1, lambda: object(), lambda: [1, 2], lambda: 3.5,
+            lambda: ValueError("an exception object handed back as a VALUE")][vid]()
 
 
-N_VALUES = 13
+N_VALUES = 14
 EXC_KINDS = ["ValueError", "KeyError", "LookupError", "RuntimeError", "OSError", "ZeroDivisionError",
-             "CustomError", "ExceptionGroup", "AssertionError", "TypeError", "EOFError", "TimeoutError",
+             "CustomError", "ExceptionGroup", "AssertionError", "TypeError", "StopIteration", "TimeoutError",
              "SystemExit", "CustomBase", "GeneratorExit"]
 N_EXC_EXCEPTION = 12     # the first 12 are Exception subclasses
 
@@ -226,7 +227,7 @@ class Ctx:
                                                  trio.RunFinishedError, trio.Cancelled))
                                   or not self.runners[rid].running.is_set() or rid in self.ended):
                 out = ["aborted", type(e).__name__]
-            elif e is want:
+            elif e is want or (type(e) is RuntimeError and e.__cause__ is want and isinstance(want, StopIteration)):
                 out = ["raise", spec_end(spec)[1], "same"]
             elif want is not None and type(e) is type(want) and e.args == getattr(want, "args", None):
                 out = ["raise", spec_end(spec)[1], "copy"]
@@ -255,6 +256,11 @@ class Ctx:
                 async def run(self):
                     return await run_async(ctx, ("s", sid), spec, ())
 
+        if spec.get("subclass"):
+            class Sub(Svc):                 # an undecorated subclass whose constructor does not chain up
+                def __init__(self):         # noqa
+                    self.sid = sid
+            Svc = Sub                       # noqa: F811
         log("NewService", who, sid, fl)
         inst = Svc()
         if spec.get("drop"):
@@ -323,6 +329,9 @@ def describe_leaf(e):
     # several payloads may have returned the very same (interned) object, e.g. 0 or "" in two runs: the error
     # names its payload (`who`); failing that, the payload that finished last is meant
     found = None
+    if type(e) is RuntimeError and isinstance(e.__cause__, StopIteration):
+        e = e.__cause__          # PEP 479: a StopIteration cannot travel through coroutines / futures; Python (and the
+        #                          thread runner) report it chained to a RuntimeError - the payload's own failure all the same
     for key, obj in list(PAYLOAD_OBJ.items()):
         pre = "" if key[0] == "p" else "svc_"
         if e is obj:
@@ -509,6 +518,10 @@ async def run_async(ctx, key, spec, args, kwargs=None, executed=False):
             log("CleanStep", key[0], key[1])
         if cl.get("shield", 0) and fl == "trio":
             with trio.CancelScope(shield=True):
+                if cl.get("adopt") is not None:
+                    # part of the cleanup: hand some follow-up work to the runtime (it may be discarded while the
+                    # runtime shuts down, but adopt itself does not fail the cleanup)
+                    ctx.do_adopt(who, spec.get("owner_rid", 0), cl["adopt"])
                 n = max(1, int(cl.get("shield_steps", 1)))
                 for _ in range(n):
                     await trio.sleep(cl["shield"] / n)
@@ -552,6 +565,11 @@ def run_sync(ctx, key, spec, args, kwargs=None, executed=False):
             ctx.do_execute(who, st[1], st[2])
         elif op == "adopt_private_loop":
             adopt_in_private_loop(ctx, who, st[1], st[2])
+        elif op == "execute_private_trio":
+            # the thread drives a trio run of its own and executes from one of ITS worker threads
+            async def private_main():
+                await trio.to_thread.run_sync(ctx.do_execute, who, st[1], st[2])
+            trio.run(private_main)
         elif op == "service":
             ctx.do_service(who, st[1])
         elif op == "shutdown":
